@@ -5,7 +5,6 @@ import props
 
 NA = {
     'C06': 'totality and print/re-parse equality of the entire async parser and its Display impls over all strings; a whole-call-graph property, out of both tools\' subset/capacity',
-    'C13': 'quantified over process schedules; the family is silent on concurrency, and the mechanism is async over shared Rc<RefCell> state',
     'C14': 'quantified over schedules; the only object-level kernel (FIFO buffer) has 512/1024-byte constants and VecDeque byte loops beyond Kani\'s reach and outside Verus\'s subset',
     'C15': 'all-interleavings / fairness property of an Rc<RefCell> run queue with a raw waker vtable; with dyn Future inputs nothing is symbolic, and liveness is not decided by contracts',
     'C19': 'differential statement between the simulator and a real kernel; one side has no code to specify',
@@ -121,6 +120,10 @@ TECH['C17'] = 'contract-based deductive verification (Verus, Z3) of Parser::subs
 LEVEL_TEXT['C05'] = 'One mechanism only. Unbounded deductive proof (Verus) that the conversion of a field into pattern characters (Chars::next inside to_pattern) drops quoting characters, keeps every other character in order, and makes a character literal if and only if it was quoted, results from a tilde / hard expansion, or follows an unquoted backslash: quoted text is never a wildcard. The directory search, the matching against entries, the leading-period rule, sorting and the no-match fallback run over the file system and the regex engine and are not decided; level other because the claim is one kernel.'
 NOTE['C05'] = 'Kernel only (field -> pattern characters). Trusted: Verus/Z3, vstd iterator model; the loop over the inner iterator checked as while-let; local items lifted out of the function. Not covered: search_dir / push_component, glob() fallback and sort, literal_period, noglob, the file system.'
 TECH['C05'] = 'contract-based deductive verification (Verus, Z3) of the pattern-character iterator of to_pattern (loop invariant over the remaining characters)'
+
+LEVEL_TEXT['C13'] = 'One object-level kernel, bounded. Kani check (job tables of <= 1 job, all contents symbolic) that the status step of the wait built-in reports the true exit status of a finished child, 127 for an unknown or disowned one, keeps waiting for a running one, and removes a finished child from the table exactly once. The schedule-quantified content of the property (no deadlock, reaping under every interleaving, pipefail, $!) is outside what contracts decide and is not claimed; level other because the check is bounded and covers one mechanism.'
+NOTE['C13'] = 'Kernel only, bounded (job_status on tables of <= 1 job). Trusted: Kani/CBMC; HashMap stand-in. Not covered: wait_for_subshell, SIGCHLD handling, run_virtual / select, pipefail, $!, zombies, every interleaving.'
+TECH['C13'] = 'Kani harness-encoded contract of the wait built-in job_status step on the real crate (bounded: tables of <= 1 job, contents symbolic)'
 
 
 def main():
